@@ -617,8 +617,8 @@ def _run_case(env: Env, case: dict[str, Any], scratch: str, want_trace: bool) ->
                     bad = {"why": "re-run after faults stopped did not exit 0", "exit": res2.exit, "exc": res2.exc, "stderr": res2.stderr[-300:].decode("utf-8", "replace")}
                 else:
                     for rel in ex.docs:
-                        if rel not in base_rewritten or "l" in case["tree"].get(rel, {}):
-                            continue  # (for a link named as argument the solo baselines are not defined)
+                        if rel not in base_rewritten or "f" not in case["tree"].get(rel, {}):
+                            continue  # (for symlinks / hard links the solo baselines are not defined)
                         cur, exp = surv.get(rel), after.get(rel)
                         if cur == ex.docs[rel][0]:
                             want = new.get(rel)
